@@ -250,3 +250,67 @@ Example loop_example :
   l_step s = 6 /\ l_updates s = [3; 4; 5] /\ l_stop s = true /\
   map (fun t => fst (fst (fst (fst t)))) (l_stored s) = [(0, 0); (0, 1); (1, 0); (1, 1); (1, 2)].
 Proof. vm_compute. repeat split; reflexivity. Qed.
+
+(* ------------------------------------------------------------------ *)
+(** ** the executed action is computed from the current observation *)
+Lemma obs_eqb_refl (o : obs) : obs_eqb o o = true.
+Proof. unfold obs_eqb. rewrite !Nat.eqb_refl. reflexivity. Qed.
+
+Lemma act_iter_fresh (s : astate) :
+  Forall (fun p => fst p = snd p) (a_used s) -> Forall (fun p => fst p = snd p) (a_used (act_iter ActFresh s)).
+Proof.
+  intros H. unfold act_iter.
+  destruct (env_step (a_env s)) as [e1 [[[o' r] term] trunc]].
+  assert (Hu : Forall (fun p : obs * obs => fst p = snd p) (a_used s ++ [(a_last s, a_last s)])).
+  { apply Forall_app. split; [exact H | constructor; [reflexivity | constructor]]. }
+  destruct (term || trunc).
+  - destruct (env_reset e1) as [e2 o0]. exact Hu.
+  - exact Hu.
+Qed.
+
+Lemma act_iter_length (rule : act_rule) (s : astate) : length (a_used (act_iter rule s)) = S (length (a_used s)).
+Proof.
+  unfold act_iter. destruct (env_step (a_env s)) as [e1 [[[o' r] term] trunc]].
+  destruct (term || trunc); [destruct (env_reset e1) as [e2 o0]|]; cbn [a_used]; rewrite app_length; cbn; lia.
+Qed.
+
+Theorem act_fresh_conditioned (script : list (nat * endk)) (n : nat) :
+  Forall (fun p => fst p = snd p) (a_used (act_run ActFresh n (act_init script))).
+Proof.
+  assert (H0 : Forall (fun p : obs * obs => fst p = snd p) (a_used (act_init script))).
+  { unfold act_init. destruct (env_reset (env_init script)) as [e o]. constructor. }
+  revert H0. generalize (act_init script). induction n as [|n IH]; intros s H; cbn [act_run]; [exact H|].
+  apply IH. apply act_iter_fresh. exact H.
+Qed.
+
+Theorem act_run_length (rule : act_rule) (script : list (nat * endk)) (n : nat) :
+  length (a_used (act_run rule n (act_init script))) = n.
+Proof.
+  assert (H0 : length (a_used (act_init script)) = 0).
+  { unfold act_init. destruct (env_reset (env_init script)) as [e o]. reflexivity. }
+  assert (G : forall s, length (a_used (act_run rule n s)) = n + length (a_used s)).
+  { induction n as [|n IH]; intros s; cbn [act_run]; [reflexivity|]. rewrite IH, act_iter_length. lia. }
+  rewrite G, H0. lia.
+Qed.
+
+Theorem act_fresh_flags (script : list (nat * endk)) (n : nat) :
+  act_flags ActFresh script n = repeat true n.
+Proof.
+  unfold act_flags. rewrite <- (act_run_length ActFresh script n) at 2.
+  pose proof (act_fresh_conditioned script n) as H.
+  induction H as [|p l Hp Hl IH]; [reflexivity|].
+  cbn [map length repeat]. rewrite Hp, obs_eqb_refl, IH. reflexivity.
+Qed.
+
+(** carrying the action over an episode end: the first action of the new episode was computed from the
+    previous episode's final observation *)
+Theorem act_carried_refuted :
+  exists script n, ~ Forall (fun p => fst p = snd p) (a_used (act_run ActCarried n (act_init script))).
+Proof.
+  exists [(1, Term)], 2. vm_compute. intros H. inversion H as [|p l Hp Hl]; subst. inversion Hl as [|p' l' Hp' Hl']; subst.
+  cbn in Hp'. discriminate.
+Qed.
+
+(** ... and nowhere else: inside an episode the carried action is the fresh one *)
+Example act_carried_flags_example : act_flags ActCarried [(2, Term); (3, Trunc)] 6 = [true; true; false; true; true; false].
+Proof. vm_compute. reflexivity. Qed.
